@@ -4,6 +4,7 @@ CONSTANTS NB = 3
  NE = 2
  Tx <- McTx
  TxEp <- McTxEp
+ Pend <- McPend
  PruneFirst = FALSE
 INVARIANT PoolIsOffChain
 INVARIANT HeadOK
